@@ -292,7 +292,7 @@ def ObsOK (o : Obs) : Prop :=
   (asciiLower o.x = true → o.ue = false → o.u = expectedUnicode o.x) ∧
   (o.ae = false →
     (o.vonly = false → o.aa = o.a ∧ o.aae = false) ∧
-    (o.transitional = false → o.vonly = false → (splitDots o.u).any hasAce = false → o.au = o.a ∧ o.aue = false) ∧
+    (transitionalDeviation o = false → o.vonly = false → (splitDots o.u).any hasAce = false → o.au = o.a ∧ o.aue = false) ∧
     (splitDots o.a).all aceLabelCanonical = true)
 
 theorem monitor_sound (o : Obs) (h : monitorObs o = none) : ObsOK o := by
